@@ -13,7 +13,8 @@ Legs
            flags, tick (as the index of the step that stamped it), every query's answer, number of
            await points of every future, status.tag; the property predicates on the code's behaviour
   http     the real listener: finished := tick >= query tick || latched, header parsing
-  strace   syscall order of write_provision_state; SIGKILL before each syscall: old or new content
+  strace   syscall order of write_provision_state; SIGKILL before each syscall: old or new content;
+           environment faults (RLIMIT_FSIZE makes the temp write fail part-way; read-only directory)
   burst    an operation is sent while the provision actor's mailbox is full of status queries: every
            report / reset whose future completed must be reflected in the flags
   threads  F11: two real writers + a reader (reported as a known finding when it shows)
@@ -348,6 +349,20 @@ def property_failures(sc, out, var, strs, limit):
             fails.append({"why": "query %d: errorMessage %r names %s, but the flags during the query were %s (missing %s)" % (
                               tid, r["err"], sorted(named(r["err"])), sorted(set(window)), [sorted(missing(f)) for f in sorted(set(window))]),
                           "kind": "error-text"})
+        # (3b) "finished" and the error text must describe the same query: when the answer is finished
+        #      because of the tick, the flags snapshot the text was built from must be at least as fresh as
+        #      the tick (some poll of the query at which the text fits the flags, at or after some poll at
+        #      which the actor's tick was the one answered).  Otherwise the answer says finished=true next
+        #      to a text naming a subsystem that had become ready by the time "finished" was sampled.
+        if fin and not r["latched"] and tk != 0:
+            qpolls = [j for j, k in enumerate(kinds) if k and k[0] == "query" and k[1] == tid]
+            j_tick = [j for j in qpolls if int(steps[j]["tick"]) == tk]
+            j_text = [j for j in qpolls if named(r["err"]) == missing(steps[j]["flags"]) and ((r["err"] == "") == (steps[j]["flags"] == ALL))]
+            if j_tick and j_text and max(j_text) < min(j_tick):
+                ready_named = sorted(named(r["err"]) - missing(steps[min(j_tick)]["flags"]))
+                fails.append({"why": "query %d answered finished=true (tick %d) together with errorMessage %r: the text fits the flags only up to step %d, the tick exists only from step %d on, when %s %s already ready (flags %d)" % (
+                                  tid, tk, r["err"], max(j_text), min(j_tick), ready_named, "is" if len(ready_named) == 1 else "are", steps[min(j_tick)]["flags"]),
+                              "kind": "stale-text"})
     # (4) status.tag: absent / the old content / a complete (escaped) text of some flags value; never a temp left over
     fs = out["fs"]
     if fs["tmp"] is not None:
@@ -426,8 +441,16 @@ def gen_cases(ctx):
     fams["D"] = list(family([rep("R"), rep("L")], [rep("K"), RESET, rep("K"), qry("now")], [2, 2, 2, 3], setups[1]))
     # E: two queries
     fams["E"] = list(family([rep("K"), rep("L")], [rep("R"), RESET, qry("now"), qry("tick")], [2, 2, 3, 3], setups[1])) if not quick else []
+    # Q: ONE query polled by hand with the last report (and a reset) injected after each of its polls
+    fams["Q"] = []
+    for x in "RKL":
+        others = [rep(f) for f in "RKL" if f != x]
+        for setup in (setups[0], setups[1]):
+            fams["Q"] += list(family(others, [rep(x), qry("now")], [1, 8], setup))
+        fams["Q"] += list(family(others, [rep(x), dict(RESET), qry("now")], [1, 1, 8], setups[1]))
+        fams["Q"] += list(family(others, [rep(x), dict(TIMEUP), qry("now")], [1, 2, 6], setups[2])) if not quick else []
     cases, dist = [], {}
-    take = {"A": None, "B": 300, "C": 300, "D": 200, "E": 0} if quick else {"A": None, "B": None, "C": None, "D": 3000, "E": 3000}
+    take = {"A": None, "B": 300, "C": 300, "D": 200, "E": 0, "Q": None} if quick else {"A": None, "B": None, "C": None, "D": 3000, "E": 3000, "Q": None}
     for name, lst in fams.items():
         k = take[name]
         sel = lst if k is None or k >= len(lst) else rng.sample(lst, k)
@@ -939,4 +962,23 @@ def strace_leg(ctx, binary, cdir, strs, limit, var, disagreements, failures, wit
         elif got != expect[sysc]:
             disagreements.append({"case": dict(sc, kill_before=sysc), "differs_in": ["crash prefix"], "model": expect[sysc], "impl": got})
     info["kill_points"] = seen
+    # (c) environment faults: the temp write fails part-way (file size limit = what a full volume / quota looks
+    #     like to write(2)), or the directory is read-only for the process: status.tag must still hold a complete
+    #     old or new text (a failed temp write must never be renamed into place)
+    faults = {}
+    for name, extra, prep in ([("fsize=%d" % n, {"fsize": n}, None) for n in (0, 1, 40, max(1, len(new.encode()) - 1))] +
+                              [("read-only directory with a stale status.tag.tmp", {"drop_uid": 65534}, "stale")]):
+        fresh()
+        if prep == "stale":
+            with open(tmp, "w", newline="") as f:
+                f.write("STALE GARBAGE")
+            os.chmod(kd, 0o755)
+        rc, outs, err = run_driver(binary, [dict(sc, **extra)], cdir)
+        info["runs"] += 1
+        got = (rd(tag), rd(tmp))
+        faults[name] = {"rc": rc, "tag": got[0], "tmp_len": None if got[1] is None else len(got[1])}
+        if got[0] not in (old, new):
+            failures.append({"case": dict(sc, **extra), "kind": "tag", "impl": got,
+                             "why": "write_provision_state under the fault '%s': status.tag holds %r, neither the complete old nor the complete new text (a failed write of status.tag.tmp was published)" % (name, got[0])})
+    info["faults"] = faults
     return info
